@@ -218,7 +218,7 @@ def product_site_value(repo, q):
 def product_rules(chk, repo, rid):
     n = 0
     # ---------------- apply_operator
-    fi = repo.func('operation.apply_operator')
+    fi = label_views(repo.func('operation.apply_operator'))
     loop = [l for l in fi.node.body if isinstance(l, ast.For) and any(
         isinstance(c, ast.Call) and norm(c.func) == 'np.tensordot' for c in ast.walk(l))]
     if len(loop) != 1 or not isinstance(loop[0].target, ast.Name):
@@ -259,7 +259,8 @@ def product_rules(chk, repo, rid):
                 left = [(s_, t.replace(f'[{i}]', f'[{var}]')) for s_, t in charges(v.axes[1])]
                 right = [(s_, t.replace(f'[{i} + 1]', f'[{var}]')) for s_, t in charges(v.axes[2])]
                 okl = left == [(1, lab[0]), (1, lab[1])] and right == [(-1, lab[0]), (-1, lab[1])] and \
-                    norm(it_) == 'range(psi.nsites + 1)'
+                    norm(it_) in ('range(psi.nsites + 1)', 'range(op.nsites + 1)', 'range(len(psi.qD))', 'range(len(op.qD))',
+                                  'range(len(psi.A) + 1)', 'range(len(op.A) + 1)')
                 detail = f'labels flatten({lab}); merged left legs {left}; merged right legs {right}; range {norm(it_)}'
         chk.ob(rid, w, 'apply_operator: bond labels are flattened in the order in which the bond legs are merged '
                '(operator first), one label per bond 0..L', okl, detail, key=f'{rid}|apply|labels')
@@ -274,7 +275,7 @@ def product_rules(chk, repo, rid):
         n += 1
     # ---------------- multiply_mpo
     from ..canon import canonical, ARITH_VALUE_ROLES
-    fi = canonical(repo.func('mpo.multiply_mpo'), ARITH_VALUE_ROLES)
+    fi = label_views(canonical(repo.func('mpo.multiply_mpo'), ARITH_VALUE_ROLES))
     rets = [r_ for r_ in ast.walk(fi.node) if isinstance(r_, ast.Return) and isinstance(r_.value, ast.Name)]
     resn = rets[0].value.id if len(rets) == 1 else 'op'
     loop = [l for l in fi.node.body if isinstance(l, ast.For) and any(
@@ -567,7 +568,8 @@ def sum_rules(chk, repo, rid):
                 if isinstance(s_, ast.Assign) and isinstance(s_.targets[0], ast.Subscript) and \
                         norm(s_.targets[0].value) == f'{res}.qD' and not isinstance(s_.value, ast.Call) or \
                         (isinstance(s_, ast.Assign) and isinstance(s_.targets[0], ast.Subscript) and
-                         norm(s_.targets[0].value) == f'{res}.qD' and norm(strip_copies(s_.value)).startswith(f'{x0}.qD[')):
+                         norm(s_.targets[0].value) == f'{res}.qD' and
+                         norm(strip_copies(s_.value)).startswith((f'{x0}.qD[', f'{x1}.qD['))):
                     k = norm(s_.targets[0].slice)
                     srcx = strip_copies(s_.value)
                     if isinstance(srcx, ast.Subscript) and norm(srcx.value) in (f'{x0}.qD', f'{x1}.qD'):
@@ -729,6 +731,54 @@ def _shape_like(e):
         if isinstance(x, ast.Attribute) and x.attr in ('shape', 'ndim', 'size', 'nsites', 'qd', 'qD', 'bond_dims'):
             return True
     return isinstance(e, ast.Call) and norm(e.func) == 'len'
+
+
+def label_views(fi):
+    """Rule-level views of how per-bond label lists are written (which label goes to which bond is all the rules use):
+      [E(x, y) for x, y in zip(P.qD, Q.qD)]     reads   [E(P.qD[k], Q.qD[k]) for k in range(len(P.qD))]
+      R.qD = [E(i) for i in range(n)]            reads   for i in range(n): R.qD[i] = E(i)
+    (`len(P.qD)` is the number of sites + 1 by the class invariant checked in C02.R1 / the constructors)"""
+    import copy
+    from ..canon import CanonFunc
+    node = copy.deepcopy(fi.node)
+    changed = False
+    for n in ast.walk(node):
+        if isinstance(n, ast.ListComp) and len(n.generators) == 1 and not n.generators[0].ifs:
+            g = n.generators[0]
+            if isinstance(g.iter, ast.Call) and norm(g.iter.func) == 'zip' and len(g.iter.args) == 2 and not g.iter.keywords and \
+                    all(isinstance(a, ast.Attribute) and a.attr == 'qD' for a in g.iter.args) and \
+                    isinstance(g.target, ast.Tuple) and len(g.target.elts) == 2 and \
+                    all(isinstance(t, ast.Name) for t in g.target.elts):
+                k = 'k__z'
+                sub = {t.id: ast.Subscript(value=copy.deepcopy(a), slice=ast.Name(id=k, ctx=ast.Load()), ctx=ast.Load())
+                       for t, a in zip(g.target.elts, g.iter.args)}
+
+                class _S(ast.NodeTransformer):
+                    def visit_Name(self, x):
+                        return copy.deepcopy(sub[x.id]) if x.id in sub and isinstance(x.ctx, ast.Load) else x
+                n.elt = _S().visit(n.elt)
+                first = g.iter.args[0]
+                g.target = ast.Name(id=k, ctx=ast.Store())
+                g.iter = ast.parse(f'range(len({norm(first)}))', mode='eval').body
+                changed = True
+    for blk in [getattr(n, f) for n in ast.walk(node) for f in ('body', 'orelse') if isinstance(getattr(n, f, None), list)]:
+        for i, s_ in enumerate(list(blk)):
+            if isinstance(s_, ast.Assign) and len(s_.targets) == 1 and isinstance(s_.targets[0], ast.Attribute) and \
+                    s_.targets[0].attr == 'qD' and isinstance(s_.value, ast.ListComp) and len(s_.value.generators) == 1 and \
+                    not s_.value.generators[0].ifs and isinstance(s_.value.generators[0].target, ast.Name) and \
+                    isinstance(s_.value.generators[0].iter, ast.Call) and norm(s_.value.generators[0].iter.func) == 'range':
+                g = s_.value.generators[0]
+                tgt = ast.Subscript(value=copy.deepcopy(s_.targets[0]), slice=ast.Name(id=g.target.id, ctx=ast.Load()), ctx=ast.Store())
+                for x in ast.walk(tgt.value):
+                    if hasattr(x, 'ctx'):
+                        x.ctx = ast.Load()
+                loop = ast.For(target=g.target, iter=g.iter, body=[ast.Assign(targets=[tgt], value=s_.value.elt)], orelse=[])
+                blk[blk.index(s_)] = ast.copy_location(loop, s_)
+                changed = True
+    if not changed:
+        return fi
+    ast.fix_missing_locations(node)
+    return CanonFunc(fi, node, dict(getattr(fi, 'renamed', {}) or {}))
 
 
 def label_builders(fi):
